@@ -1286,3 +1286,45 @@ Proof.
   - split; apply in_or_app; [right; left; reflexivity | left; exact (Hcf true Hc)].
   - split; apply in_or_app; [left; exact (Hst Hs) | right; left; reflexivity].
 Qed.
+
+(* ---- busy: back off, then retry ------------------------------------------------------------------ *)
+Lemma release_lock_other : forall fuel st id, ~ In id (s_lockq st) ->
+  rget id (s_reqs (fst (release_lock fuel st))) = rget id (s_reqs st).
+Proof.
+  induction fuel as [|fuel IH]; intros st id Hn; cbn [release_lock]; [reflexivity|].
+  destruct (s_lockq st) as [|a q] eqn:Hq; [reflexivity|].
+  destruct (rget a (s_reqs st)) as [r|] eqn:Hr.
+  - match goal with |- context [want_lock ?s r] => destruct (want_lock_frame s r) as (_ & (s0 & Hs0 & _) & _) end.
+    rewrite Hs0. cbn [s_reqs]. apply rget_rset_other. cbn [q_id with_stage]. intros E. apply Hn. left.
+    rewrite E. symmetry. exact (rget_id _ _ _ Hr).
+  - rewrite IH; [reflexivity|]. cbn [s_lockq]. intros H. apply Hn. right. exact H.
+Qed.
+
+(* a busy reply ends nothing: the request sleeps (RBackoff) with one more attempt on its count, and a
+   confirmation that already arrived stays remembered *)
+Theorem busy_backs_off : forall es id r, sends_unique es ->
+  rget id (s_reqs (sfinal es)) = Some r -> q_stage r = RSend ->
+  (forall id' o, ~ In (XDone id' o) (snd (sstep (sfinal es) (SReply id EnqBusy)))) /\
+  exists r', rget id (s_reqs (fst (sstep (sfinal es) (SReply id EnqBusy)))) = Some r' /\
+             q_stage r' = RBackoff /\ q_attempt r' = q_attempt r + 1 /\ q_confirmed r' = q_confirmed r.
+Proof.
+  intros es id r Hu Hg Hs. pose proof (proj1 (sfinal_inv es Hu)) as HI. cbn [sstep]. rewrite Hg, Hs.
+  split; [intros id' o H; exact (done_in_unlock _ _ _ H)|].
+  unfold unlock. rewrite release_lock_other.
+  - cbn [set_reqs s_reqs]. rewrite rget_rset. cbn [q_id]. rewrite (rget_id _ _ _ Hg), N.eqb_refl.
+    eexists. split; [reflexivity|]. cbn [q_stage q_attempt q_confirmed]. repeat split.
+  - cbn [set_reqs s_lockq]. intros Hin. pose proof (inv_lockq_stage _ _ _ HI Hg Hin) as E.
+    rewrite E in Hs. discriminate.
+Qed.
+
+(* the retry really starts a new attempt: the request asks for the lock again *)
+Theorem busy_retry_reenters : forall st id r, rget id (s_reqs st) = Some r -> q_stage r = RBackoff ->
+  q_attempt r <? nretries = true ->
+  exists r', rget id (s_reqs (fst (sstep st (STimer id)))) = Some r' /\
+    (q_stage r' = RLock \/ (exists n, q_stage r' = RSetup n) \/ q_stage r' = RSend).
+Proof.
+  intros st id r Hg Hs Hlt. cbn [sstep]. rewrite Hg, Hs, Hlt. pose proof (rget_id _ _ _ Hg) as Hid.
+  destruct (want_lock_frame st r) as (_ & (s & Hr & Hh) & _). exists (with_stage r s). rewrite Hr, <- Hid.
+  split; [exact (rget_rset_same (with_stage r s) _)|]. cbn [q_stage with_stage].
+  destruct Hh as [Hh| ->]; [right; apply holding_cases; exact Hh | left; reflexivity].
+Qed.
